@@ -87,6 +87,8 @@ def run(ctx, res):
         res.violations.append(report.Violation('proof obligations of C14b (pipeline ignores spans / statement order) no longer check',
                                                dict(kind='proof-obligation', errors=extra['errors'][:5]), found_input=False))
     res.extra['theorems_C14b'] = extra['theorems']
+    from . import e2e
+    e2e.capstone_obligations(res, 'C14_')      # the same on the script text: Props/Capstone.v
     r = ctx['rng']
     quick = ctx['tier'] == 'quick'
     n, k = (40, 3) if quick else (2500, 8)
